@@ -16,7 +16,9 @@ Pool == <<MkDef(1, 10, <<1>>, <<1>>, <<>>, <<(<<1, 11>>), (<<2, 12>>)>>),
           MkDef(4, 5, <<5>>, <<3>>, <<>>, <<(<<2, 42>>)>>),
           MkDef(5, 10, <<>>, <<>>, <<>>, <<>>),
           MkDef(6, 20, <<4, 3>>, <<1>>, <<>>, <<(<<3, 63>>)>>),
-          MkDef(7, 10, <<>>, <<2>>, <<>>, <<(<<4, 74>>)>>)>>      \* no transformations, but post-processing and a variable (a second concat finalizer after pipeline 2's would be fed a string)
+          MkDef(7, 10, <<>>, <<2>>, <<>>, <<(<<4, 74>>)>>),
+          MkDef(8, 10, <<>>, <<4>>, <<>>, <<(<<1, 81>>)>>)>>      \* 8: no transformations; its post-processing item prints variable k1 and the state of the pipeline it runs in
+          \* 7:      \* no transformations, but post-processing and a variable (a second concat finalizer after pipeline 2's would be fed a string)
 NPool == Len(Pool)
 Seqs(n) == {s \in [1..n -> 1..NPool] : \A i, j \in 1..n : i # j => s[i] # s[j]}
 MaxSum == IF Quick THEN 3 ELSE 4
@@ -37,7 +39,10 @@ ReuseCases == {[op |-> o, operands |-> s, tree |-> Leaf(1),
                         ELSE IF o \in {"resolve_twice", "resolve_defs_twice", "resolve_decorated"} THEN Resolve([i \in 1..2 |-> Pool[s[i]]])
                         ELSE SumSeq([i \in 1..2 |-> Pool[s[i]]])]
                      : s \in Seqs(2), o \in {"reuse_sum_again", "reuse_first_sum", "reuse_operand", "resolve_twice", "resolve_defs_twice", "resolve_decorated"}}
-ASSUME LET S == SetToSeq(SumCases \cup ResolveCases \cup BackendCases \cup SwitchCases \cup ReuseCases)
+\* a + b is built, then b is summed with c, then a + b is used: it still is the pipeline with a's parts followed by b's
+ThirdCases == {[op |-> "reuse_then_third", operands |-> s, tree |-> Leaf(1), ref |-> SumSeq([i \in 1..2 |-> Pool[s[i]]])]
+                     : s \in {t \in Seqs(3) : t[2] \in {7, 8} \/ t[1] = 8}}
+ASSUME LET S == SetToSeq(ThirdCases \cup SumCases \cup ResolveCases \cup BackendCases \cup SwitchCases \cup ReuseCases)
        IN  ndJsonSerialize(IOEnv.VERIF_OUT, [i \in 1..Len(S) |-> [id |-> i, pool |-> Pool] @@ S[i]])
 Init == x = 0
 Next == UNCHANGED x
